@@ -529,10 +529,62 @@ def rule5(ctx, rep):
         if not drains or not sel:
             raise AnalysisError('farm: the selection of the cloud list in _put or its drain in dispatch was not found')
         r.instance()
+        # semantic implication selection => drain, over the atoms of both conditions (a comparison is the same atom in
+        # either orientation; flags are followed to their definition)
+        import itertools as _it
+
+        def expand(e, depth=0):
+            if isinstance(e, ast.Name) and depth < 3:
+                for fn in (put, disp):
+                    defs = [d.value for d in fn.own_nodes() if isinstance(d, ast.Assign) and any(isinstance(t, ast.Name) and t.id == e.id for t in d.targets)]
+                    if len(defs) == 1:
+                        return expand(defs[0], depth + 1)
+            if isinstance(e, ast.BoolOp):
+                return ast.BoolOp(op=e.op, values=[expand(v, depth) for v in e.values])
+            if isinstance(e, ast.UnaryOp) and isinstance(e.op, ast.Not):
+                return ast.UnaryOp(op=ast.Not(), operand=expand(e.operand, depth))
+            return e
+
+        def atom(e):
+            if isinstance(e, ast.Compare) and len(e.ops) == 1 and isinstance(e.ops[0], (ast.Eq, ast.NotEq, ast.Is, ast.IsNot)):
+                a, b = sorted([norm(e.left), norm(e.comparators[0])])
+                return (f'{a} == {b}', isinstance(e.ops[0], (ast.NotEq, ast.IsNot)))
+            return (norm(e), False)
+
+        def atoms(e, acc):
+            if isinstance(e, ast.BoolOp):
+                for v in e.values:
+                    atoms(v, acc)
+            elif isinstance(e, ast.UnaryOp) and isinstance(e.op, ast.Not):
+                atoms(e.operand, acc)
+            else:
+                acc.add(atom(e)[0])
+
+        def ev(e, env):
+            if isinstance(e, ast.BoolOp):
+                vals = [ev(v, env) for v in e.values]
+                return all(vals) if isinstance(e.op, ast.And) else any(vals)
+            if isinstance(e, ast.UnaryOp) and isinstance(e.op, ast.Not):
+                return not ev(e.operand, env)
+            k, negd = atom(e)
+            return env[k] != negd
+
+        sels = [expand(t) for t in sel]
+        drs = [expand(d) for d in drains]
+        names = set()
+        for e in sels + drs:
+            atoms(e, names)
+        names = sorted(names)
+        counter = None
+        for vals in _it.product((False, True), repeat=len(names)):
+            env = dict(zip(names, vals))
+            if any(ev(t, env) for t in sels) and not all(ev(d, env) for d in drs):
+                counter = {k: v for k, v in env.items()}
+                break
         need = {norm(c) for d in drains for c in conjuncts(d)}
         have = {norm(c) for t in sel for c in conjuncts(t)}
         r.check(
-            need <= have,
+            counter is None and len(names) <= 6,
             f'{put.qname}:cloud-selected-only-when-drained',
             where(put),
             f'selection {sorted(have)} implies the drain condition {sorted(need)}',
